@@ -199,6 +199,14 @@ KF21(impl, st, c) ==
    Both concern the one code site that opens a file, so they are modelled together: the outcome is
    labelled with the finding(s) it needs. *)
 OddAccess(c) == HasFlag(c, "RDONLY") /\ Len(c.flag) > 1
+On(k) == k \in OpenKF
+\* MemFS never takes set-uid / set-gid bits away when a non-administrator changes the content of a file
+ContentOps == {"writefile", "truncate", "openclose", "open", "create", "chown", "lchown"}
+KeepPriv(pre, post) ==
+    [post EXCEPT !.ino = [i \in DOMAIN post.ino |->
+        IF i \in DOMAIN pre.ino /\ pre.ino[i].k = "file" /\ post.ino[i].k = "file" /\ post.ino[i].mode # pre.ino[i].mode
+           /\ post.ino[i].mode = KilledMode(pre, pre.ino[i])
+        THEN [post.ino[i] EXCEPT !.mode = pre.ino[i].mode] ELSE post.ino[i]]]
 \* with the odd access mode the permission asked of the file is "write" (ToOpenMode yields OpenWrite without
 \* OpenRead), so the call is evaluated as if O_WRONLY had been given in place of O_RDONLY
 AsWrOnly(c) == [c EXCEPT !.flag = [i \in DOMAIN c.flag |-> IF c.flag[i] = "RDONLY" THEN "WRONLY" ELSE c.flag[i]]]
@@ -211,9 +219,11 @@ ImplOpen(st, c, acc, app) ==
     LET h0 == Handle(o.id, c, IsDir(o.st, o.id))
         h1 == IF acc THEN [h0 EXCEPT !.rd = FALSE, !.wr = HasFlag(c, "CREATE") \/ HasFlag(c, "APPEND") \/ HasFlag(c, "TRUNC")]
               ELSE h0
-        h2 == IF app /\ h1.app /\ ~h1.dir THEN [h1 EXCEPT !.app = FALSE, !.off = Len(o.st.ino[o.id].data)] ELSE h1 IN
-    IF c.op = "openclose" THEN {[res |-> o.res, st |-> o.st]}
-    ELSE {Ret([R0 EXCEPT !.n = Len(st.h) + 1], [o.st EXCEPT !.h = Append(@, h2)])}
+        h2 == IF app /\ h1.app /\ ~h1.dir THEN [h1 EXCEPT !.app = FALSE, !.off = Len(o.st.ino[o.id].data)] ELSE h1
+        \* (the implementations do not take set-id bits away on truncation either: KF48)
+        ost == IF On("KF48") THEN KeepPriv(st, o.st) ELSE o.st IN
+    IF c.op = "openclose" THEN {[res |-> o.res, st |-> ost]}
+    ELSE {Ret([R0 EXCEPT !.n = Len(st.h) + 1], [ost EXCEPT !.h = Append(@, h2)])}
 
 KF22(impl, st, c) ==
     IF Both(impl) /\ c.op \in {"open", "openclose"} /\ OddAccess(c)
@@ -293,8 +303,7 @@ KF34(impl, st, c) ==
 (* the state as MemFS sees it, each ingredient switched on by its own      *)
 (* finding being open.                                                     *)
 (***************************************************************************)
-PermFamily == {"KF40", "KF41", "KF42", "KF43", "KF44", "KF45", "KF46", "KF48"}
-On(k) == k \in OpenKF
+PermFamily == {"KF40", "KF41", "KF42", "KF43", "KF44", "KF45", "KF46", "KF48", "KF49"}
 DirBitsIgnored == (IF On("KF44") THEN 512 ELSE 0) + (IF On("KF42") THEN SETGID ELSE 0)
 \* the state as MemFS reads it: sticky / set-gid bits of directories play no part
 MemView(st) ==
@@ -336,6 +345,8 @@ MemRemoveAll(st, c) ==
     THEN \* the root directory: emptied as far as allowed, then refused (EINVAL: see KF02)
          {IF i.err # "ok" THEN Fail(i.err, Gc(i.st)) ELSE Fail("EINVAL", Gc(i.st)) : i \in MemRmDir(st, Root, 6)}
     ELSE
+    IF ~IsEmptyPath(c.p) /\ ~EndsWithDot(c.p) /\ r.err \notin {"ok", "ENOENT"} THEN {Fail(r.err, st)}     \* the error of the walk, as it is
+    ELSE
     IF IsEmptyPath(c.p) \/ EndsWithDot(c.p) \/ r.err # "ok" \/ r.id = 0 \/ LastKind(c.p) # "norm" THEN {}    \* as the reference
     ELSE LET par == Last(r.par)
              inner == IF IsDir(st, r.id) /\ DOMAIN st.ino[r.id].ent # {} THEN MemRmDir(st, r.id, 6) ELSE {[err |-> "ok", st |-> st]} IN
@@ -347,13 +358,6 @@ KeepSpecial(pre, post, c) ==
     [post EXCEPT !.ino = [i \in DOMAIN post.ino |->
         IF i \notin DOMAIN pre.ino /\ post.ino[i].k = "dir" THEN [post.ino[i] EXCEPT !.mode = @ + And(c.perm, SETUID + SETGID) - And(@, And(c.perm, SETUID + SETGID))]
         ELSE post.ino[i]]]
-\* MemFS never takes set-uid / set-gid bits away when a non-administrator changes the content of a file
-ContentOps == {"writefile", "truncate", "openclose", "open", "create", "chown", "lchown"}
-KeepPriv(pre, post) ==
-    [post EXCEPT !.ino = [i \in DOMAIN post.ino |->
-        IF i \in DOMAIN pre.ino /\ pre.ino[i].k = "file" /\ post.ino[i].k = "file" /\ post.ino[i].mode # pre.ino[i].mode
-           /\ post.ino[i].mode = KilledMode(pre, pre.ino[i])
-        THEN [post.ino[i] EXCEPT !.mode = pre.ino[i].mode] ELSE post.ino[i]]]
 PermLabel(st, c) ==
     LET sticky == \E i \in DOMAIN st.ino : st.ino[i].k = "dir" /\ HasBit(st.ino[i].mode, 512)
         setgid == \E i \in DOMAIN st.ino : st.ino[i].k = "dir" /\ HasBit(st.ino[i].mode, SETGID)
@@ -364,6 +368,7 @@ PermLabel(st, c) ==
               \o (IF sticky /\ On("KF44") /\ c.op \in {"remove", "removeall", "rename"} THEN <<"KF44">> ELSE <<>>)
               \o (IF c.op = "removeall" /\ On("KF45") THEN <<"KF45">> ELSE <<>>)
               \o (IF c.op = "mkdirall" /\ On("KF46") THEN <<"KF46">> ELSE <<>>)
+              \o (IF c.op = "chmod" /\ On("KF49") /\ ~IsAdmin(st) /\ And(c.perm, SETGID) # 0 THEN <<"KF49">> ELSE <<>>)
               \o (IF c.op \in ContentOps /\ On("KF48") /\ (~IsAdmin(st) \/ c.op \in {"chown", "lchown"})
                      /\ (\E i \in DOMAIN st.ino : st.ino[i].k = "file" /\ And(st.ino[i].mode, SETUID + SETGID) # 0) THEN <<"KF48">> ELSE <<>>)
         RECURSIVE Join(_)
@@ -379,8 +384,12 @@ MemPerm(impl, st, c) ==
                ELSE IF c.op = "link" /\ On("KF43") THEN {LinkUnprotected(v, c)}
                ELSE {Apply(v, c)}
         fin == {LET s1 == IF c.op \in {"mkdir", "mkdirall", "mkdirtemp"} /\ On("KF41") THEN KeepSpecial(v, o.st, c) ELSE o.st
-                    s2 == IF c.op \in ContentOps /\ On("KF48") THEN KeepPriv(v, s1) ELSE s1 IN
-                [res |-> o.res, st |-> Unview(st, s2)] : o \in raw}
+                    s2 == IF c.op \in ContentOps /\ On("KF48") THEN KeepPriv(v, s1) ELSE s1
+                    rc == Res(v, c.p, TRUE)
+                    \* Chmod stores the bits it is given: an owner outside the file's group keeps the set-gid bit
+                    s3 == IF c.op = "chmod" /\ On("KF49") /\ o.res.err = "ok" /\ rc.err = "ok" /\ rc.id # 0
+                          THEN [s2 EXCEPT !.ino[rc.id].mode = And(c.perm, 4095)] ELSE s2 IN
+                [res |-> o.res, st |-> Unview(st, s3)] : o \in raw}
         strict == AllStrictOutcomes(st, c)
         lab == PermLabel(st, c) IN
     IF lab = "" THEN {} ELSE {Dev(lab, o, "ok", FALSE) : o \in {x \in fin : x \notin strict}}
